@@ -4,6 +4,7 @@ use crate::chunks::{
     MoltEntry, MolvEntry, Mom3Entry, MomtEntry, MopeEntry, MoprEntry, MoptEntry, MopvEntry, Mosb,
     Motx, MouvEntry, MovbEntry, MovvEntry,
 };
+use crate::group_parser::read_chunk_data;
 use binrw::{BinRead, BinReaderExt};
 use std::collections::HashMap;
 use std::io::{Read, Seek, SeekFrom};
@@ -195,8 +196,7 @@ pub fn parse_root_file<R: Read + Seek>(
             }
             "MOTX" => {
                 // Read texture filenames
-                let mut data = vec![0u8; chunk_info.size as usize];
-                reader.read_exact(&mut data)?;
+                let data = read_chunk_data(reader, chunk_info.size)?;
                 let motx = Motx::parse(&data)?;
                 root.textures = motx.textures;
                 root.texture_offset_index_map = motx.texture_offset_index_map;
@@ -210,8 +210,7 @@ pub fn parse_root_file<R: Read + Seek>(
             }
             "MOGN" => {
                 // Read group names
-                let mut data = vec![0u8; chunk_info.size as usize];
-                reader.read_exact(&mut data)?;
+                let data = read_chunk_data(reader, chunk_info.size)?;
                 let mogn = Mogn::parse(&data)?;
                 root.group_names = mogn.names;
             }
@@ -224,8 +223,7 @@ pub fn parse_root_file<R: Read + Seek>(
             }
             "MOSB" => {
                 // Read skybox name
-                let mut data = vec![0u8; chunk_info.size as usize];
-                reader.read_exact(&mut data)?;
+                let data = read_chunk_data(reader, chunk_info.size)?;
                 let mosb = Mosb::parse(&data)?;
                 root.skybox = mosb.skybox;
             }
@@ -280,8 +278,7 @@ pub fn parse_root_file<R: Read + Seek>(
             }
             "MODN" => {
                 // Read doodad names
-                let mut data = vec![0u8; chunk_info.size as usize];
-                reader.read_exact(&mut data)?;
+                let data = read_chunk_data(reader, chunk_info.size)?;
                 let modn = Modn::parse(&data)?;
                 root.doodad_names = modn.names;
             }
@@ -337,8 +334,7 @@ pub fn parse_root_file<R: Read + Seek>(
             "MOM3" => {
                 // Read new materials (WarWithin+)
                 // Structure is variable, read as opaque data for now
-                let mut data = vec![0u8; chunk_info.size as usize];
-                reader.read_exact(&mut data)?;
+                let data = read_chunk_data(reader, chunk_info.size)?;
                 root.new_materials.push(Mom3Entry { data });
             }
             "MOMO" => {
